@@ -376,6 +376,11 @@ impl Task {
             return Ok(());
         }
         self.init(ctx)?;
+        if self.state().is_pending() && self.is_ready() {
+            // the wake-up condition may already hold, e.g. an else branch declared after its siblings
+            self.set_state(TaskState::Running);
+            ctx.runtime.scher().emit_task_event(self)?;
+        }
         self.run(ctx)?;
         self.next(ctx)?;
         Ok(())
